@@ -1,4 +1,268 @@
-import DuneVerif.Model.C10
+/-
+C10 — Dune::bigunsignedint<k> is arithmetic modulo 2^w: the property theorems.
+
+All theorems are about the executable model `DuneVerif/Model/C10.lean` (the definitions the driver runs against the
+real class) and about the constants regenerated from bigunsignedint.hh in `DuneVerif/Gen/C10.lean`.
+They hold for every digit count `n` (unbounded) and all well-formed operands `Wf n a` (n uint16 digits,
+little-endian); `val a = Σ aᵢ·B^i`, `B = 2^bits`, `W n = B^n = 2^(bits·n)`.
+Lemmas live in `DuneVerif/Proofs/C10*.lean`; every `example` shows that the hypotheses of the theorem above it
+are satisfied by a concrete non-trivial input (and what the theorem then says about it).
+-/
+import DuneVerif.Proofs.C10Arith
+import DuneVerif.Proofs.C10Cmp
+import DuneVerif.Proofs.C10Bit
+import DuneVerif.Proofs.C10Shift
+import DuneVerif.Proofs.C10Mul
+import DuneVerif.Proofs.C10Div
+import DuneVerif.Proofs.C10Conv
+
 namespace DV.C10
-theorem placeholder : True := trivial
+open DV.C10.Gen
+
+/-! ## the constants of the header mean what the proofs assume -/
+
+/-- the masks generated from the header are the ones the digit arithmetic needs -/
+theorem constants_ok :
+    bitmask = 2 ^ bits - 1 ∧ overflowmask = 1 ∧ compbitmask = bitmask * 2 ^ bits ∧
+    hexdigits * 4 = bits ∧ B = 65536 ∧ 0 < representableDigits ∧
+    B ^ representableDigits ≤ 2 ^ 53 ∧ 2 ^ 32 ≤ B ^ (representableDigits - 1) :=
+  ⟨bitmask_eq, overflowmask_eq, compbitmask_eq, hexdigits_eq, B_eq, representableDigits_pos,
+    representable_fit, representable_margin⟩
+
+/-- the modulus is 2^w with w = bits·n = `numeric_limits::digits` -/
+theorem modulus_eq (n : Nat) : W n = 2 ^ (bits * n) := W_eq n
+
+/-- the storage width bits·n is the least multiple of `bits` that holds k bits; n ≥ 1 for k ≥ 1 -/
+theorem width_spec (k : Nat) (hk : 0 < k) :
+    k ≤ bits * ndigits k ∧ bits * ndigits k < k + bits ∧ 1 ≤ ndigits k :=
+  ⟨(ndigits_spec k).1, (ndigits_spec k).2, ndigits_pos hk⟩
+
+example : ndigits 8 = 1 ∧ ndigits 16 = 1 ∧ ndigits 24 = 2 ∧ ndigits 100 = 7 ∧ ndigits 128 = 8 := by decide
+
+/-- every `singleproduct.digit[i+m]` (i, m < n) written by `operator*=` lies inside the `bigunsignedint<2k>` -/
+theorem mul_temp_fits (k : Nat) : 2 * ndigits k - 1 ≤ ndigits (2 * k) := (ndigits_double k).1
+
+/-! ## representation -/
+
+/-- a well-formed value is below the modulus -/
+theorem val_lt_modulus {n : Nat} {a : List Nat} (ha : Wf n a) : val a < W n := val_lt ha
+
+example : Wf 3 [0xffff, 0xffff, 0xffff] ∧ val [0xffff, 0xffff, 0xffff] = W 3 - 1 := by decide
+
+/-- the digit list is determined by the value: equal values have equal representations -/
+theorem val_injective {n : Nat} {a b : List Nat} (ha : Wf n a) (hb : Wf n b) (h : val a = val b) : a = b :=
+  val_inj ha hb h
+
+/-- `ofNat n v` (how the driver reads an operand) is the well-formed representation of `v mod W n` -/
+theorem ofNat_spec (n v : Nat) : Wf n (ofNat n v) ∧ val (ofNat n v) = v % W n :=
+  ⟨ofNat_wf n v, ofNat_val n v⟩
+
+example : ofNat 2 0x12345678 = [0x5678, 0x1234] := by decide
+
+/-! ## addition, increment, subtraction -/
+
+theorem add_wf_val {n : Nat} {a x : List Nat} (ha : Wf n a) (hx : Wf n x) :
+    Wf n (add a x) ∧ val (add a x) = (val a + val x) % W n :=
+  ⟨add_wf ha hx, add_val' ha hx⟩
+
+theorem add_val {n : Nat} {a x : List Nat} (ha : Wf n a) (hx : Wf n x) :
+    val (add a x) = (val a + val x) % W n := add_val' ha hx
+
+-- a carry running through every digit and out of the top
+example : Wf 3 [0xffff, 0xffff, 0xffff] ∧ Wf 3 [1, 0, 0] ∧ add [0xffff, 0xffff, 0xffff] [1, 0, 0] = [0, 0, 0] := by
+  decide
+
+theorem incr_wf_val {n : Nat} {a : List Nat} (ha : Wf n a) :
+    Wf n (incr a) ∧ val (incr a) = (val a + 1) % W n :=
+  ⟨incr_wf ha, incr_val' ha⟩
+
+theorem incr_val {n : Nat} {a : List Nat} (ha : Wf n a) : val (incr a) = (val a + 1) % W n := incr_val' ha
+
+example : Wf 2 [0xffff, 0x7fff] ∧ incr [0xffff, 0x7fff] = [0, 0x8000] := by decide
+
+theorem sub_wf_val {n : Nat} {a x : List Nat} (ha : Wf n a) (hx : Wf n x) :
+    Wf n (sub a x) ∧ val (sub a x) = (val a + W n - val x) % W n :=
+  ⟨sub_wf ha hx, sub_val' ha hx⟩
+
+/-- subtraction modulo W (`val x < W n`, so `val a + W n - val x` is the non-negative representative) -/
+theorem sub_val {n : Nat} {a x : List Nat} (ha : Wf n a) (hx : Wf n x) :
+    val (sub a x) = (val a + W n - val x) % W n := sub_val' ha hx
+
+-- a borrow running through every digit and out of the top: 0 - 1 = W - 1
+example : Wf 3 [0, 0, 0] ∧ Wf 3 [1, 0, 0] ∧ sub [0, 0, 0] [1, 0, 0] = [0xffff, 0xffff, 0xffff] := by decide
+
+/-! ## multiplication -/
+
+/-- `operator*=` for `bigunsignedint<k>`: both operands have `ndigits k` digits; the double-width temporary has
+    `ndigits (2k) ≥ ndigits k` digits (`mul_temp_fits`), which is all the truncation needs. -/
+theorem mul_wf_val {k : Nat} {a x : List Nat} (ha : Wf (ndigits k) a) (hx : Wf (ndigits k) x) :
+    Wf (ndigits k) (mul k a x) ∧ val (mul k a x) = (val a * val x) % W (ndigits k) := mul_spec ha hx
+
+theorem mul_val {k : Nat} {a x : List Nat} (ha : Wf (ndigits k) a) (hx : Wf (ndigits k) x) :
+    val (mul k a x) = (val a * val x) % W (ndigits k) := (mul_spec ha hx).2
+
+-- (W-1)·(W-1) = 1 mod W, with k = 24 (not a multiple of 16): two digits, three-digit temporary
+example : Wf (ndigits 24) [0xffff, 0xffff] ∧ mul 24 [0xffff, 0xffff] [0xffff, 0xffff] = [1, 0] := by decide
+
+/-! ## division and remainder -/
+
+/-- `operator/=` with a non-zero divisor returns the exact quotient; the fuel `val a + 1` of the model's
+    repeated-subtraction loop is never exhausted (`divLoop_fuel_irrelevant`). -/
+theorem div_val {n : Nat} {a x : List Nat} (ha : Wf n a) (hx : Wf n x) (h : val x ≠ 0) :
+    ∃ q, div a x = .ok q ∧ Wf n q ∧ val q = val a / val x := div_spec ha hx h
+
+theorem mod_val {n : Nat} {a x : List Nat} (ha : Wf n a) (hx : Wf n x) (h : val x ≠ 0) :
+    ∃ r, mod a x = .ok r ∧ Wf n r ∧ val r = val a % val x := mod_spec ha hx h
+
+example : Wf 2 [0x0003, 0x0001] ∧ Wf 2 [0x8000, 0] ∧ val [0x8000, 0] ≠ 0 ∧
+    div [0x0003, 0x0001] [0x8000, 0] = .ok [2, 0] ∧ mod [0x0003, 0x0001] [0x8000, 0] = .ok [3, 0] := by decide
+
+/-- a zero divisor is reported (the model's `mathError` is the code's `DUNE_THROW(MathError)`), never looped on -/
+theorem div_zero_reported {n : Nat} {a x : List Nat} (hx : Wf n x) (h : val x = 0) :
+    div a x = .mathError := div_zero' hx h
+
+theorem mod_zero_reported {n : Nat} {a x : List Nat} (hx : Wf n x) (h : val x = 0) :
+    mod a x = .mathError := mod_zero' hx h
+
+example : Wf 2 [0, 0] ∧ val [0, 0] = 0 ∧ div [5, 0] [0, 0] = .mathError ∧ mod [5, 0] [0, 0] = .mathError := by
+  decide
+
+/-- termination of `while (*this >= x)`: any fuel above `val a` gives the same result, i.e. the loop has left
+    through its exit test; with remainder `< val x` (from `mod_val`). -/
+theorem divLoop_fuel_irrelevant {n : Nat} {a x r : List Nat} (ha : Wf n a) (hx : Wf n x) (hr : Wf n r)
+    (hpos : 0 < val x) {f1 f2 : Nat} (h1 : val a < f1) (h2 : val a < f2) :
+    divLoop f1 a x r = divLoop f2 a x r := divLoop_fuel ha hx hr hpos h1 h2
+
+/-! ## bitwise operations -/
+
+theorem band_wf_val {n : Nat} {a x : List Nat} (ha : Wf n a) (hx : Wf n x) :
+    Wf n (band a x) ∧ val (band a x) = val a &&& val x :=
+  ⟨⟨by rw [band_length a x (by rw [ha.1, hx.1]), ha.1], band_digs a x ha.2 hx.2⟩,
+    band_val'' a x (by rw [ha.1, hx.1]) ha.2 hx.2⟩
+
+theorem bor_wf_val {n : Nat} {a x : List Nat} (ha : Wf n a) (hx : Wf n x) :
+    Wf n (bor a x) ∧ val (bor a x) = val a ||| val x :=
+  ⟨⟨by rw [bor_length a x (by rw [ha.1, hx.1]), ha.1], bor_digs a x ha.2 hx.2⟩,
+    bor_val'' a x (by rw [ha.1, hx.1]) ha.2 hx.2⟩
+
+theorem bxor_wf_val {n : Nat} {a x : List Nat} (ha : Wf n a) (hx : Wf n x) :
+    Wf n (bxor a x) ∧ val (bxor a x) = val a ^^^ val x :=
+  ⟨⟨by rw [bxor_length a x (by rw [ha.1, hx.1]), ha.1], bxor_digs a x ha.2 hx.2⟩,
+    bxor_val'' a x (by rw [ha.1, hx.1]) ha.2 hx.2⟩
+
+example : Wf 2 [0xff00, 0x0f0f] ∧ Wf 2 [0x0ff0, 0xffff] ∧
+    band [0xff00, 0x0f0f] [0x0ff0, 0xffff] = [0x0f00, 0x0f0f] ∧
+    bor [0xff00, 0x0f0f] [0x0ff0, 0xffff] = [0xfff0, 0xffff] ∧
+    bxor [0xff00, 0x0f0f] [0x0ff0, 0xffff] = [0xf0f0, 0xf0f0] := by decide
+
+/-- complement: `~a = W - 1 - a` -/
+theorem bnot_wf_val {n : Nat} {a : List Nat} (ha : Wf n a) :
+    Wf n (bnot a) ∧ val (bnot a) = W n - 1 - val a :=
+  ⟨⟨by rw [bnot_length, ha.1], bnot_digs a⟩, by rw [bnot_val'' a ha.2, ha.1]⟩
+
+example : Wf 2 [0x0001, 0x8000] ∧ bnot [0x0001, 0x8000] = [0xfffe, 0x7fff] := by decide
+
+/-! ## shifts -/
+
+/-- left shift by any amount below the width -/
+theorem shl_wf_val {n : Nat} {a : List Nat} (ha : Wf n a) {s : Nat} (hs : s < bits * n) :
+    Wf n (shl a s) ∧ val (shl a s) = (val a * 2 ^ s) % W n := shl_spec ha hs
+
+/-- right shift (the theorem does not even need `s < bits * n`; the code is only specified below the width) -/
+theorem shr_wf_val {n : Nat} {a : List Nat} (ha : Wf n a) (s : Nat) :
+    Wf n (shr a s) ∧ val (shr a s) = val a / 2 ^ s := shr_spec ha s
+
+-- a shift across a digit boundary with a bit remainder: 17 = 1 digit + 1 bit
+example : Wf 3 [0x8001, 0xffff, 0x0001] ∧ 17 < bits * 3 ∧
+    shl [0x8001, 0xffff, 0x0001] 17 = [0, 0x0002, 0xffff] ∧
+    shr [0x8001, 0xffff, 0x0001] 17 = [0xffff, 0, 0] := by decide
+
+/-! ## comparisons -/
+
+theorem lt_iff {n : Nat} {a x : List Nat} (ha : Wf n a) (hx : Wf n x) : lt a x = decide (val a < val x) :=
+  lt_val' ha hx
+theorem le_iff {n : Nat} {a x : List Nat} (ha : Wf n a) (hx : Wf n x) : le a x = decide (val a ≤ val x) :=
+  le_val' ha hx
+theorem gt_iff {n : Nat} {a x : List Nat} (ha : Wf n a) (hx : Wf n x) : gt a x = decide (val a > val x) :=
+  gt_val' ha hx
+theorem ge_iff {n : Nat} {a x : List Nat} (ha : Wf n a) (hx : Wf n x) : ge a x = decide (val a ≥ val x) :=
+  ge_val' ha hx
+theorem eq_iff {n : Nat} {a x : List Nat} (ha : Wf n a) (hx : Wf n x) : eq a x = decide (val a = val x) :=
+  eq_val' ha hx
+theorem ne_iff {n : Nat} {a x : List Nat} (ha : Wf n a) (hx : Wf n x) : ne a x = decide (val a ≠ val x) :=
+  ne_val' ha hx
+
+-- the low digits order the other way round than the values
+example : Wf 2 [0xffff, 0x0001] ∧ Wf 2 [0x0000, 0x0002] ∧
+    lt [0xffff, 0x0001] [0x0000, 0x0002] = true ∧ le [0xffff, 0x0001] [0xffff, 0x0001] = true ∧
+    gt [0xffff, 0x0001] [0x0000, 0x0002] = false ∧ ge [0x0000, 0x0002] [0xffff, 0x0001] = true ∧
+    eq [0xffff, 0x0001] [0xffff, 0x0001] = true ∧ ne [0xffff, 0x0001] [0x0000, 0x0002] = true := by decide
+
+/-! ## construction from built-in integers, conversions, limits -/
+
+/-- construction from an unsigned built-in (`uintmax_t`, 64 bits): the value modulo W, for every n
+    (n < 4: truncation; n ≥ 4: zero extension) -/
+theorem assign_wf_val (n : Nat) {x : Nat} (hx : x < 2 ^ 64) :
+    Wf n (assign n x) ∧ val (assign n x) = x % W n :=
+  ⟨assign_wf' n x, assign_val' n hx⟩
+
+example : assign 1 0x123456789abcdef0 = [0xdef0] ∧
+    assign 5 0x123456789abcdef0 = [0xdef0, 0x9abc, 0x5678, 0x1234, 0] := by decide
+
+/-- construction from a signed built-in: negative values are rejected, non-negative ones are taken modulo W -/
+theorem ofSigned_spec (n : Nat) (y : Int) :
+    (y < 0 → ofSigned n y = .negative) ∧
+    (0 ≤ y → y < 2 ^ 63 → ∃ v, ofSigned n y = .ok v ∧ Wf n v ∧ val v = y.toNat % W n) := by
+  refine ⟨fun h => by simp [ofSigned, h], fun h0 h1 => ?_⟩
+  have hx : y.toNat < 2 ^ 64 := by omega
+  exact ⟨assign n y.toNat, by simp [ofSigned, Int.not_lt.2 h0], assign_wf' n _, assign_val' n hx⟩
+
+example : ofSigned 2 (-1) = .negative ∧ ofSigned 2 0x12345 = .ok [0x2345, 0x0001] := by decide
+
+/-- `touint()` is the low 32 bits of the value for every n ≥ 1, including the one-digit case -/
+theorem touint_val {n : Nat} {a : List Nat} (ha : Wf n a) (hn : 1 ≤ n) : touint a = val a % 2 ^ 32 :=
+  touint_val' ha hn
+
+example : Wf 1 [0xabcd] ∧ touint [0xabcd] = 0xabcd ∧
+    Wf 3 [0x5678, 0x1234, 0xffff] ∧ touint [0x5678, 0x1234, 0xffff] = 0x12345678 := by decide
+
+/-- `todouble()` (as the exact number `mantissa · 2^exponent` the code computes): never above the value, and the
+    relative error is below 2^-32 for every magnitude; exactly 0 for 0. -/
+theorem todouble_err {n : Nat} {a : List Nat} (ha : Wf n a) :
+    todoubleN a ≤ val a ∧ (val a - todoubleN a) * 2 ^ 32 ≤ val a ∧
+    (0 < val a → (val a - todoubleN a) * 2 ^ 32 < val a) := todouble_spec ha.2
+
+/-- the mantissa accumulated by the Horner loop is below 2^53, so every step of the loop and the final `ldexp`
+    are exact in IEEE double (for values below 2^1024) -/
+theorem todouble_mantissa_exact {n : Nat} {a : List Nat} (ha : Wf n a) :
+    (todoubleParts a).1 < 2 ^ 53 ∧ todoubleN a = (todoubleParts a).1 * 2 ^ (todoubleParts a).2 := by
+  obtain ⟨_, _, _, h, _⟩ := todouble_parts ha.2
+  exact ⟨Nat.lt_of_lt_of_le h representable_fit, rfl⟩
+
+-- a value ≥ 2^64 (the case the unrepaired code got wrong): the three leading digits are kept
+example : Wf 6 [0xffff, 0xffff, 0x0001, 0x8000, 0x0001, 0] ∧
+    todoubleParts [0xffff, 0xffff, 0x0001, 0x8000, 0x0001, 0] = (0x000180000001, 32) ∧
+    todoubleN [0xffff, 0xffff, 0x0001, 0x8000, 0x0001, 0] = 0x0001800000010000_0000 := by decide
+
+/-- hex printing denotes the value: parsing the printed characters gives `val a` back -/
+theorem print_parse {n : Nat} {a : List Nat} (ha : Wf n a) : parseHexChars (print a) = some (val a) := by
+  rw [parseHexChars_eq, parseFrom_print a 0 ha.2, Nat.zero_mul, Nat.zero_add]
+
+example : Wf 2 [0x00ab, 0x0c00] ∧ String.ofList (print [0x00ab, 0x0c00]) = "0c0000ab" := by decide
+
+/-- `numeric_limits::max()` is W - 1 -/
+theorem maxVal_wf_val (n : Nat) : Wf n (maxVal n) ∧ val (maxVal n) = W n - 1 :=
+  ⟨maxVal_wf n, maxVal_val' n⟩
+
+example : maxVal 2 = [0xffff, 0xffff] := by decide
+
+/-- hashing is consistent with the represented value: the hash is a function of the digits, and equal values
+    (of one width) have equal digits -/
+theorem hash_congr {n : Nat} {a b : List Nat} (ha : Wf n a) (hb : Wf n b) (h : val a = val b) :
+    hash a = hash b := by
+  rw [val_inj ha hb h]
+
+example : Wf 2 (ofNat 2 0x10002) ∧ Wf 2 (add [1, 1] [1, 0]) ∧ val (ofNat 2 0x10002) = val (add [1, 1] [1, 0]) := by
+  decide
+
 end DV.C10
